@@ -137,7 +137,14 @@ def install_layout(libs):
     shutil.copyfile(libs["B"], os.path.join(root, "search", "libsearchonly.so"))
     out["search/bare"] = ("libsearchonly.so", "B")
     out["search/bare_missing"] = ("libnowhere_on_the_search_path.so", None)
+    # a library in the working directory of the run, named `./libcwd.so` (every case directory gets a link to build B)
+    out["cwd/dot"] = ("./libcwd.so", "B")
+    out["cwd/dot_missing"] = ("./libcwd_missing.so", None)
     return out
+
+
+def cwd_source():
+    return os.path.join(core.WORK, "ffi_libs", "search", "libsearchonly.so")
 
 
 def search_dir():
